@@ -38,9 +38,11 @@ Proof. exact no_lost_update. Qed.
 
 (* the facts about the code the model rests on, re-read from the source on every run:
    the store lock and the cache lock are exclusive flocks taken before any file is read,
-   a contended attempt blocks, and the lock is released by dropping the FileLock *)
+   a contended attempt blocks, and the lock is released by dropping the FileLock; the cache's persisted files are
+   written back by `Drop for Cache`, i.e. before the cache's own FileLock field is dropped *)
 Theorem C18_locks_are_exclusive :
-  STORE_LOCK_EXCLUSIVE = true /\ CACHE_LOCK_EXCLUSIVE = true /\ FILELOCK_DROP_UNLOCKS = true.
+  STORE_LOCK_EXCLUSIVE = true /\ CACHE_LOCK_EXCLUSIVE = true /\ FILELOCK_DROP_UNLOCKS = true /\
+  CACHE_WRITEBACK_BEFORE_UNLOCK = true.
 Proof. repeat split; reflexivity. Qed.
 
 (* the premises are met by a real run: two writers and a reader, interleaved *)
